@@ -633,6 +633,11 @@ func (c *handlerCtx) handleReply() {
 	}()
 	if c.callCmd.stat.OK() {
 		stat := c.input.Status()
+		if stat.OK() && !c.stat.OK() {
+			// the reply could not be read completely, e.g. its body
+			// could not be decoded into the result
+			stat = c.stat
+		}
 		if stat.OK() {
 			stat = c.pluginContainer.postReadReplyBody(c)
 		}
